@@ -546,6 +546,7 @@ func main() {
 			dims = append(dims, "at_hash", "at_hash")
 		}
 		done := map[string]bool{}
+		extremeT := false
 		if forced != "" {
 			k = 1
 		}
@@ -617,6 +618,11 @@ func main() {
 				if r.Chance(1, 8) {
 					val = "absent"
 					c.Exp = 0
+				} else if r.Chance(1, 3) { // far from now: nothing may wrap around
+					past := r.Bool()
+					c.Exp = tok.ExtremeTime(r.IntN, nowSec, past)
+					val = fmt.Sprintf("extreme_past=%v", past)
+					extremeT = true
 				}
 			case "iat":
 				if v.MaxIAT != 0 && r.Chance(2, 3) {
@@ -641,6 +647,11 @@ func main() {
 				if r.Chance(1, 8) {
 					val = "absent"
 					c.Iat = 0
+				} else if r.Chance(1, 4) {
+					past := r.Chance(2, 3)
+					c.Iat = tok.ExtremeTime(r.IntN, nowSec, past)
+					val = fmt.Sprintf("extreme_past=%v", past)
+					extremeT = true
 				}
 			case "nonce":
 				val = drv.Pick(r, []string{"absent", "wrong", "near", "near", "keyword"})
@@ -667,8 +678,14 @@ func main() {
 						c.AuthT = nowSec - 3600 + o2 + dl
 					}
 				} else {
-					val = drv.Pick(r, []string{"absent", "absent", "veryold", "future"})
+					val = drv.Pick(r, []string{"absent", "absent", "veryold", "future", "extreme"})
 					c.AuthT = map[string]int64{"absent": 0, "veryold": nowSec - 86400, "future": nowSec + 600}[val]
+					if val == "extreme" {
+						past := r.Chance(2, 3)
+						c.AuthT = tok.ExtremeTime(r.IntN, nowSec, past)
+						val = fmt.Sprintf("extreme_past=%v", past)
+						extremeT = true
+					}
 				}
 			case "at_hash":
 				val = drv.Pick(r, []string{"absent", "wrong", "full", "other_token", "other_token", "other_token", "other_alg", "case", "padded", "space", "cut"})
@@ -802,6 +819,9 @@ func main() {
 		// insignificant whitespace around the object, a shadowed duplicate member, unicode escapes
 		opts := tok.PayloadOpts{ExtraKey: "ext", Reverse: r.Bool(), AudSingle: r.Bool(), TimeString: r.Chance(1, 10),
 			DupKey: r.Chance(1, 10), Escape: r.Chance(1, 8), Spaces: r.Chance(1, 8)}
+		if extremeT {
+			opts.TimeString = false // RFC 3339 has no years beyond 9999 or before 0
+		}
 		form := "bare"
 		if r.Chance(1, 5) {
 			opts.Lead = drv.Pick(r, []string{"", "", " ", "\n", "\t \r\n"})
